@@ -4,6 +4,7 @@
 From Coq Require Import List Ascii String Arith Lia Bool.
 Import ListNotations.
 From SP Require Import Skel Gen Expected ExpectedCones Str PathLex Format WfModel Audit AuditModel.
+From SP Require AuditFS.
 Notation length := List.length.
 
 (* T1: writeAuditLogs (Upstream from the in-IPs' snapshots, members for joined ports; OutFiles; a copy per out-IP; tags of
@@ -99,6 +100,35 @@ Theorem C10_cone_conforms :
   && strs_eqb cone_components_MapToTags_Run exp_cone_components_MapToTags_Run = true.
 Proof. vm_compute. reflexivity. Qed.
 
+(* ---- the record is there whenever the output is (AuditFS) ----
+   Task.Execute writes the audit files (directly beside the final paths) after the command and before the outputs are renamed to
+   those paths (T1: exp_Task_Execute, call_before below).  On TaskFS extended with the audit files: in every reachable state --
+   every schedule, every kill instant -- a declared output path that no longer holds its initial content has the record of its
+   own task next to it *)
+Theorem C10_every_final_output_is_audited : forall (c : TaskFS.cfg) (f0 : Result.fs) (left0 : nat -> bool), TInv.wfc c ->
+  forall l s, AuditFS.arun c false (AuditFS.ainit c f0 left0) l = Some s ->
+  forall t x, t < TaskFS.nt c -> In x (Result.tout (TaskFS.tk c t)) -> TaskFS.fin (AuditFS.base s) x <> f0 x -> AuditFS.aud s x = Some t.
+Proof. exact AuditFS.audited. Qed.
+
+Theorem C10_audit_order_in_code :
+  call_before "t.executeCommand" "t.writeAuditLogs" exp_Task_Execute
+  && call_before "t.writeAuditLogs" "t.finalizePaths" exp_Task_Execute = true.
+Proof. vm_compute. reflexivity. Qed.
+
+(* with the other order (the record written into the temp dir and moved after the renames) a kill leaves a final output without
+   its record, and the re-run, which skips the task, never writes it *)
+Theorem C10_late_record_refuted :
+  exists s, AuditFS.arun AuditFS.one true (AuditFS.ainit AuditFS.one (fun _ => None) (fun _ => false))
+              [TaskFS.AStart 0; TaskFS.AChkTemp 0; TaskFS.AChkOut 0; TaskFS.AMkTemp 0; TaskFS.ACmdOk 0 []; TaskFS.AEnsure 0 [0]; TaskFS.ARename 0] = Some s
+            /\ TaskFS.fin (AuditFS.base s) 0 = Some 42 /\ AuditFS.aud s 0 = None.
+Proof. exact AuditFS.late_record_refuted. Qed.
+
+Theorem C10_audited_nonvacuous :
+  exists s, AuditFS.arun AuditFS.one false (AuditFS.ainit AuditFS.one (fun _ => None) (fun _ => false))
+              [TaskFS.AStart 0; TaskFS.AChkTemp 0; TaskFS.AChkOut 0; TaskFS.AMkTemp 0; TaskFS.ACmdOk 0 []; TaskFS.AEnsure 0 [0]; TaskFS.ARename 0] = Some s
+            /\ TaskFS.fin (AuditFS.base s) 0 = Some 42 /\ AuditFS.aud s 0 = Some 0.
+Proof. exact AuditFS.audited_nonvacuous. Qed.
+
 Print Assumptions C10_code_conforms.
 Print Assumptions C10_order_facts.
 Print Assumptions C10_record_fields.
@@ -106,3 +136,7 @@ Print Assumptions C10_upstream_is_lineage.
 Print Assumptions C10_tags_propagate.
 Print Assumptions C10_substream_tags_refuted.
 Print Assumptions C10_cone_conforms.
+Print Assumptions C10_every_final_output_is_audited.
+Print Assumptions C10_audit_order_in_code.
+Print Assumptions C10_late_record_refuted.
+Print Assumptions C10_audited_nonvacuous.
